@@ -41,6 +41,7 @@ let action_of_string a =
   else if starts a "delt:" then Some (ADel (KTimed, z_of_int (int_of_string (after a "delt:"))))
   else if starts a "delg:" then Some (ADel (KGlobal, z_of_int (int_of_string (after a "delg:"))))
   else if starts a "send:" then Some (ASend (zs_of_string (after a "send:")))
+  else if starts a "clk:" then Some (AClk (z_of_int (int_of_string (after a "clk:"))))
   else None
 
 let script : script = fun lg cb ud ->
